@@ -178,3 +178,10 @@ def conserve_two_suspensions(cap_cpu, cap_ram, ramA, ramB, cpuA, cpuB, dA, dB, d
         return "REACHED" if want in seen else ""
     path_done()
     return ""
+
+
+def sim_conserve(cfg, cpus=4, ram=40, da=1, db=1, dc=1, ma=None, mb=None, pa=3, pb=3, ta=0, tb=0, want=""):
+    """Conservation in full scheduler+executor simulations (every shipped scheduler)."""
+    from vf.harness import sim
+    return sim.run(cfg, [sim.Conserve()], cpus=cpus, ram=ram, da=da, db=db, dc=dc, ma=ma, mb=mb,
+                   pa=pa, pb=pb, ta=ta, tb=tb, want=want)
